@@ -40,7 +40,7 @@ def clobber_scenarios(rng):
 def run(tier, seed):
     rng = random.Random(seed)
     mc = filecheck.design_check()
-    n = 400 if tier == "quick" else 3000
+    n = 400 if tier == "quick" else 6000
     execs = []
     i = 0
     aligns = [None, {"nc_header_align_size": "1024"}, {"nc_var_align_size": "64"}, {"nc_record_align_size": "512"},
